@@ -135,6 +135,7 @@ func runC07(c *core.Ctx) *core.Outcome {
 	var tplFaults []bool
 	wrFaulted := false
 	badSaved := false
+	var badAfter []bool // per request: had the long-lived session cached a value that is not valid UTF-8 by the end of it
 	okReq := 0
 	restartsWithState := 0
 	for i := 0; i < nreq; i++ {
@@ -203,6 +204,7 @@ func runC07(c *core.Ctx) *core.Outcome {
 		if badSaved {
 			o.Probes["request_leaving_non_utf8_value_in_cache"]++
 		}
+		badAfter = append(badAfter, badSaved)
 		if a1 != a2 {
 			o.Fail("twin-diverge:long-lived/persisted", i, attrs,
 				"request %d input %s: long-lived (cont=%v execErr=%q flushErr=%q out=%s) != persisted (cont=%v execErr=%q flushErr=%q out=%s)",
@@ -261,7 +263,7 @@ func runC07(c *core.Ctx) *core.Outcome {
 			}
 		}
 		X := wx.NewSession("sess", true)
-		if v := loopTwin(t, o, L, X, inputs, tplFaults); v != nil {
+		if v := loopTwin(t, o, L, X, inputs, tplFaults, badAfter); v != nil {
 			o.V = v
 			if o.Scenario == nil {
 				o.Scenario = map[string]interface{}{"long_lived": scenario(wl, nil), "loop": scenario(wx, nil)["sessions"]}
@@ -297,7 +299,14 @@ func nonUTF8Cached(s *world.Sess) bool {
 
 // loopTwin serves the inputs the long-lived twin L has handled through engine.Loop, cut into
 // connections at drawn points, and compares what reaches the writer with L's pages.
-func loopTwin(t *tape.Tape, o *core.Outcome, L, X *world.Sess, inputs [][]byte, tplFaults []bool) *core.Violation {
+func loopTwin(t *tape.Tape, o *core.Outcome, L, X *world.Sess, inputs [][]byte, tplFaults []bool, badAfter []bool) *core.Violation {
+	// the listed finding seen through this twin: a connection that ends saves the session, the next one loads it
+	known := func(v *core.Violation) *core.Violation {
+		if v.Step > 0 && v.Step-1 < len(badAfter) && badAfter[v.Step-1] {
+			v.Attrs = map[string]string{"cause": "non-utf8-value-in-saved-session"}
+		}
+		return v
+	}
 	n := len(L.Steps)
 	if n > len(inputs) {
 		n = len(inputs)
@@ -329,7 +338,7 @@ func loopTwin(t *tape.Tape, o *core.Outcome, L, X *world.Sess, inputs [][]byte, 
 			return nil
 		}
 		if res.Consumed == 0 {
-			return &core.Violation{Class: "twin-diverge:long-lived/loop", Step: pos, Msg: fmt.Sprintf("connection starting at request %d: engine.Loop served nothing (%s)", pos, res.Err)}
+			return known(&core.Violation{Class: "twin-diverge:long-lived/loop", Step: pos, Msg: fmt.Sprintf("connection starting at request %d: engine.Loop served nothing (%s)", pos, res.Err)})
 		}
 		for j := range res.Steps {
 			i := pos + j
@@ -340,15 +349,15 @@ func loopTwin(t *tape.Tape, o *core.Outcome, L, X *world.Sess, inputs [][]byte, 
 			xFail := last && res.Err != "" && !(failAt >= 0 && j == segLen-1 && strings.Contains(res.Err, "cannot read input"))
 			switch {
 			case lFail != xFail:
-				return &core.Violation{Class: "twin-diverge:long-lived/loop", Step: i, Msg: fmt.Sprintf("request %d input %s: long-lived engine exec=%q flush=%q, engine.Loop returned %q", i, short(ls.Input), ls.ExecErr, ls.FlushErr, res.Err)}
+				return known(&core.Violation{Class: "twin-diverge:long-lived/loop", Step: i, Msg: fmt.Sprintf("request %d input %s: long-lived engine exec=%q flush=%q, engine.Loop returned %q", i, short(ls.Input), ls.ExecErr, ls.FlushErr, res.Err)})
 			case !lFail && ls.Out != xs.Out:
-				return &core.Violation{Class: "twin-diverge:long-lived/loop", Step: i, Msg: fmt.Sprintf("request %d input %s: long-lived engine delivered %s, engine.Loop wrote %s", i, short(ls.Input), short(ls.Out), short(xs.Out))}
+				return known(&core.Violation{Class: "twin-diverge:long-lived/loop", Step: i, Msg: fmt.Sprintf("request %d input %s: long-lived engine delivered %s, engine.Loop wrote %s", i, short(ls.Input), short(ls.Out), short(xs.Out))})
 			case !lFail && !ls.Cont != (last && res.Err == "" && !xs.Cont && j < segLen-1 || last && !ls.Cont && !xs.Cont):
 				if !ls.Cont && xs.Cont {
-					return &core.Violation{Class: "twin-diverge:long-lived/loop", Step: i, Msg: fmt.Sprintf("request %d input %s: the long-lived engine reports stop, engine.Loop went on reading", i, short(ls.Input))}
+					return known(&core.Violation{Class: "twin-diverge:long-lived/loop", Step: i, Msg: fmt.Sprintf("request %d input %s: the long-lived engine reports stop, engine.Loop went on reading", i, short(ls.Input))})
 				}
 				if ls.Cont && last && j < segLen-1 && res.Err == "" {
-					return &core.Violation{Class: "twin-diverge:long-lived/loop", Step: i, Msg: fmt.Sprintf("request %d input %s: the long-lived engine reports continue, engine.Loop stopped with %d lines unread", i, short(ls.Input), segLen-1-j)}
+					return known(&core.Violation{Class: "twin-diverge:long-lived/loop", Step: i, Msg: fmt.Sprintf("request %d input %s: the long-lived engine reports continue, engine.Loop stopped with %d lines unread", i, short(ls.Input), segLen-1-j)})
 				}
 			}
 			if lFail && !ls.Cont || !ls.Cont {
